@@ -1165,3 +1165,36 @@ pub fn sorted_set<T: Ord + Clone>(it: impl IntoIterator<Item = T>) -> Vec<T> {
     let s: BTreeSet<T> = it.into_iter().collect();
     s.into_iter().collect()
 }
+
+/// A caller that gives up: the wrapped future is polled until it has returned `Pending` `left`
+/// times and is then abandoned (dropped by whoever awaited this wrapper) at the await point it has
+/// reached - also one that would have been passed without any virtual time going by, which a
+/// timeout in virtual time can never hit.
+pub struct GiveUpAfterPolls<F> {
+    inner: std::pin::Pin<Box<F>>,
+    left: u32,
+}
+
+impl<F: std::future::Future> GiveUpAfterPolls<F> {
+    pub fn new(f: F, polls: u32) -> Self {
+        GiveUpAfterPolls { inner: Box::pin(f), left: polls.max(1) }
+    }
+}
+
+impl<F: std::future::Future> std::future::Future for GiveUpAfterPolls<F> {
+    type Output = Option<F::Output>;
+    fn poll(mut self: std::pin::Pin<&mut Self>, cx: &mut std::task::Context<'_>) -> std::task::Poll<Self::Output> {
+        match self.inner.as_mut().poll(cx) {
+            std::task::Poll::Ready(v) => std::task::Poll::Ready(Some(v)),
+            std::task::Poll::Pending => {
+                if self.left <= 1 {
+                    std::task::Poll::Ready(None)
+                } else {
+                    self.left -= 1;
+                    std::task::Poll::Pending
+                }
+            },
+        }
+    }
+}
+
